@@ -120,7 +120,8 @@ DimOf(call) == CASE call.route = "single" -> call.b
                  [] call.route = "batch" -> call.c
                  [] call.route = "front" -> IF call.b = 0 THEN call.a ELSE call.b
 OneDimensional(call) == call.route = "single" \/ (call.route = "front" /\ call.b = 0)
-CallInDomain(call) == FirstSeed(call) >= 1 /\ NumPoints(call) >= 1 /\ DimOf(call) >= 1
+\* Sobol seeds start at 1 (seed N is point number N-1); the Korobov sequence also has a point of seed 0
+CallInDomain(call) == FirstSeed(call) >= (IF call.method = "kgf" THEN 0 ELSE 1) /\ NumPoints(call) >= 1 /\ DimOf(call) >= 1
 
 (* observation register: <<method, seed, dimension>> -> the point observed  *)
 KeyOf(call, r) == <<call.method, FirstSeed(call) + r - 1, DimOf(call)>>
